@@ -8,7 +8,7 @@ PATCH=$(readlink -f "$1"); shift
 TAG=mut$$
 WT=/tmp/wt-$TAG
 /verif/tools/mkscratch.sh $WT >/dev/null
-( cd $WT && patch -p1 -s < "$PATCH" )
+( cd $WT && patch -p1 -s --forward < "$PATCH" ) || { echo "MUTANT: patch does not apply"; rm -rf $WT; exit 3; }
 set +e
 export VERIF_BUILD_TAG=$TAG VERIF_TMP=/dev/shm/$TAG VERIF_EVIDENCE_DIR=/dev/shm/$TAG/evidence
 mkdir -p /dev/shm/$TAG
